@@ -1,0 +1,43 @@
+//go:build verif
+// +build verif
+
+package rafthttp
+
+import (
+	"io"
+	"net/http"
+
+	"github.com/youzan/ZanRedisDB/pkg/types"
+	"github.com/youzan/ZanRedisDB/raft/raftpb"
+	"github.com/youzan/ZanRedisDB/stats"
+)
+
+// Verification hooks (build tag verif only): a handle on the real streamWriter so that an external
+// harness can attach connections to it and send messages through it, exactly as peer.attachOutgoingConn
+// and peer.send do. Nothing here changes behaviour.
+
+// VerifStreamWriter wraps a running streamWriter.
+type VerifStreamWriter struct{ w *streamWriter }
+
+// VerifStartStreamWriter starts the writer goroutine for the given peer, as startPeer does.
+func VerifStartStreamWriter(peer types.ID, ps *stats.PeerStats, r Raft) *VerifStreamWriter {
+	return &VerifStreamWriter{startStreamWriter(peer, newPeerStatus(peer), ps, r)}
+}
+
+// Attach hands the writer a new outgoing connection of the given stream type
+// ("msgappv2" or "message"), as the stream handler does when the peer dials in.
+func (v *VerifStreamWriter) Attach(kind string, w io.Writer, f http.Flusher, c io.Closer) bool {
+	return v.w.attach(&outgoingConn{t: streamType(kind), Writer: w, Flusher: f, Closer: c})
+}
+
+// Writec returns the channel peer.send writes to and whether a connection is attached.
+func (v *VerifStreamWriter) Writec() (chan<- raftpb.Message, bool) { return v.w.writec() }
+
+// Stop stops the writer goroutine.
+func (v *VerifStreamWriter) Stop() { v.w.stop() }
+
+// Stream type names.
+const (
+	VerifStreamTypeMsgAppV2 = string(streamTypeMsgAppV2)
+	VerifStreamTypeMessage  = string(streamTypeMessage)
+)
